@@ -28,11 +28,16 @@ def d1(func, *args, p1=1, **kwargs):
 def d2(func, *args, p2=2, **kwargs):
     return func(*args, **kwargs)
 
+def sink(*args, **kwargs):
+    return (args, tuple(sorted(kwargs.items())))
+
+# the bodies forward their stars, so that automatic discovery (and, under a modifier, the
+# translator's autoforwards hint) takes part in every retrieval
 def f(a, b=0, c=1, *args, **kwargs):
-    return ('f', a, b, c, args, tuple(sorted(kwargs.items())))
+    return ('f', a, b, c, sink(*args, **kwargs))
 
 def f2(c, a=5, b=2, *args, **kwargs):
-    return ('f2', c, a, b, args, tuple(sorted(kwargs.items())))
+    return ('f2', c, a, b, sink(*args, **kwargs))
 
 def ha(u, v=1):
     return ('ha', u, v)
@@ -53,7 +58,7 @@ class K(Base):
     def __call__(self, a, *args, **kwargs):
         return ('call', self, a, self.t(*args, **kwargs))
 #MDECO#    def m(self, a, b=0, c=1, *args, **kwargs):
-        return ('m', self, a, b, c, args, tuple(sorted(kwargs.items())))
+        return ('m', self, a, b, c, sink(*args, **kwargs))
     @specifiers.forwards_to_method('t')
     def fm(self, a, *args, **kwargs):
         return ('fm', self, a, self.t(*args, **kwargs))
